@@ -113,6 +113,21 @@ func TestVX_C01(t *testing.T) {
 	if raw, ok := vx.Replay("sign-verify"); ok {
 		var c c01case
 		json.Unmarshal(raw, &c)
+		if c.Entry == "hashed-stream" {
+			kk := vx.UnHex(c.K)
+			d := vx.UnHex(c.D)
+			px, py := sm2ref.Pub(bi(d))
+			rr, ss, err := sm2.SignHashed(stream(kk[:32], kk[32:], b32(big.NewInt(99))), d, vx.UnHex(c.E))
+			ok := false
+			if err == nil {
+				ok, _ = sm2.VerifyHashed(px, py, vx.UnHex(c.E), rr, ss)
+			}
+			r.Eval(1)
+			if err != nil || !ok {
+				r.Violation("c01:stream-verify-reject:replay", "replayed stream case still fails", c)
+			}
+			return
+		}
 		c01run(r, c)
 		return
 	}
@@ -178,6 +193,67 @@ func TestVX_C01(t *testing.T) {
 					r.Sample(c)
 				}
 			}
+		}
+	}
+	// ---------------- digests at and above n (the signer reduces e mod n; the verifier must do the same)
+	{
+		d := keys[0].d
+		for ei, ev := range []*big.Int{bigN, new(big.Int).Add(bigN, bigOne), new(big.Int).Sub(new(big.Int).Lsh(bigOne, 256), bigOne),
+			new(big.Int).Lsh(big.NewInt(0xffffffff), 224), new(big.Int).Sub(bigN, bigOne), big.NewInt(0)} {
+			for ki := 0; ki < 3; ki++ {
+				n++
+				if !vx.MineIdx(n) {
+					continue
+				}
+				k := modN(bi(vx.Fill(fmt.Sprintf("c01ek%d", ki), 32)))
+				c := c01case{Entry: "hashed", Shape: fmt.Sprintf("bigdigest:%d:%d", ei, ki), D: vx.Hex(b32(d)), E: vx.Hex(b32(ev)), K: vx.Hex(b32(k))}
+				c01run(r, c)
+				r.Sample(c)
+			}
+		}
+	}
+	// ---------------- nonce streams whose first candidate is rejected (k=0, k>=n, and e solved so that r=0 resp. r+k=n for
+	// the first candidate): whatever the signer finally returns must verify
+	{
+		d := keys[0].d
+		k1 := modN(bi(vx.Fill("c01rk1", 32)))
+		k2 := modN(bi(vx.Fill("c01rk2", 32)))
+		x1 := sm2ref.BaseMul(k1).X
+		eR0 := modN(new(big.Int).Neg(x1))
+		eRK := modN(new(big.Int).Sub(new(big.Int).Sub(bigN, k1), x1))
+		eFree := bi(vx.Fill("c01re", 32))
+		type rej struct {
+			name  string
+			first *big.Int
+			e     *big.Int
+		}
+		for _, rc := range []rej{{"K0", big.NewInt(0), eFree}, {"Kn", bigN, eFree}, {"Kmax", new(big.Int).Sub(new(big.Int).Lsh(bigOne, 256), bigOne), eFree},
+			{"R0", k1, eR0}, {"RK", k1, eRK}} {
+			n++
+			if !vx.MineIdx(n) {
+				continue
+			}
+			r.Eval(1)
+			px, py := sm2ref.Pub(d)
+			cs := c01case{Entry: "hashed-stream", Shape: "reject:" + rc.name, D: vx.Hex(b32(d)), E: vx.Hex(b32(rc.e)), K: vx.Hex(b32(rc.first)) + vx.Hex(b32(k2))}
+			var rr, ss []byte
+			var err error
+			var ok bool
+			kind, msg := vx.Try(func() {
+				rr, ss, err = sm2.SignHashed(stream(b32(rc.first), b32(k2), b32(big.NewInt(99))), b32(d), b32(rc.e))
+				if err == nil {
+					ok, _ = sm2.VerifyHashed(px, py, b32(rc.e), rr, ss)
+				}
+			})
+			if kind != "" {
+				r.Violation("c01:stream-panic:"+rc.name, msg, cs)
+			} else if err != nil {
+				r.Violation("c01:stream-sign-error:"+rc.name, fmt.Sprintf("signing failed although the stream holds an acceptable nonce after the rejected %s candidate: %v", rc.name, err), cs)
+			} else if !ok {
+				r.Violation("c01:stream-verify-reject:"+rc.name, fmt.Sprintf("first candidate is a %s case; the signature the signer returned (r=%x s=%x) is rejected by the verifier", rc.name, rr, ss), cs)
+			}
+			r.Shape("stream:" + rc.name)
+			r.Sample(cs)
 		}
 	}
 	// ---------------- SignZa / VerifyZa: e fixed by (za, M); k chosen; s or t shaped; d solved
